@@ -40,7 +40,11 @@ TARGET = FE.TARGET
 RULE = ("target ADMGs with 2-5 nodes x 1-2 domains (selection diagram = the target graph, policy variables optionally cut "
         "from their parents, selection nodes on a random subset; valid topological orders; population tags pi1/pi2 or the "
         "target tag) x events of 1-3 counterfactual variables over V(G) with 0-2 subscripts and values -V / +V / None "
-        "(unconditional) or outcome / condition lists (conditional); the worked examples of Correa et al. 2022 as corpus; "
+        "(unconditional) or outcome / condition lists (conditional); a structured SINGLE-WORLD stream (2-3 intervened variables "
+        "joined by a directed path, e.g. X1->X2->W->Y, X1->Y, all event variables in the same world, 1-3 outcomes that are "
+        "ancestors of one another, 1-2 domains; outside every known-finding class, so every answer is judged by the value "
+        "oracle); a stream of source domains whose graph lacks a bidirected edge of the target (trichotomy clause only); "
+        "the worked examples of Correa et al. 2022 as corpus; "
         "plus a malformed stream for every class of the validators. A case is non-trivial when validation passes, the graph "
         "has >=3 nodes and some event variable has a subscript.")
 ASSUMPTIONS = [
@@ -49,10 +53,16 @@ ASSUMPTIONS = [
     "the models of SIMPLIFY, counterfactual ancestors, ctf-factors and IDENTIFY are the `ctf` / `tian` families' (C19, C17); "
     "Algorithm 3's derivation of D* and its line 4 are parameters of the model (only its validator and its call of "
     "Algorithm 2 are modelled); the conditional procedure is covered by the oracle on the real code",
-    "ctf_no_internal_error is OPEN and false of the current code (three crash findings); the trichotomy theorems say that an "
-    "accepted input ends in answer / FAIL / non-validation error, the oracle reports every such error",
-    "failures on inputs with the syntactic signature of an open finding are attributed to that finding by class key; a "
-    "different defect that only shows on such inputs would be masked",
+    "ctf_no_internal_error: false of the current code on four crash classes (known findings); PROVED for the unconditional "
+    "procedure outside them (ctfTRu_no_internal_error_partial: validated input, no self-intervened variable together with a "
+    "valueless variable, plain event variables as built by the public wrapper, every domain graph keeps the target's "
+    "bidirected edges between non-policy variables and has no bidirected edge at a selection node => answer or FAIL, no "
+    "error); OPEN for Algorithm 3 (its derivation of D* and line 4 are parameters of the model); the oracle reports "
+    "every exception after validation",
+    "failures on inputs with the syntactic signature of an open finding AND its kind of outcome (wrong value / wrong zero / "
+    "exception class at a named check) are attributed to that finding by class key (17 keys; signature computed on the "
+    "minimised query with the harness's own graph code); a different defect that only shows on such inputs with the same "
+    "kind of outcome would be masked in the conditional procedure (the unconditional one is also tied to the model)",
     "oracle model class: discrete variables, positive rational parameters, independent root latents per bidirected edge, one "
     "private uniform noise per variable; policies are fresh kernels at the policy variables (same parents, or none when cut)",
     "a returned event that gives one variable two values (or uses a variable both as subscript value and as event value with "
@@ -159,6 +169,108 @@ def _rand_case(rng, nmax=5):
     return _c(g, doms, outs, conds, seed, topo_seed=rng.randrange(1 << 30))
 
 
+# ---- structured streams (second round): single-world events over distinct variables --------------------------------
+# The random stream draws the subscripts of every event variable independently, so two outcomes in the SAME world with
+# two or more intervened variables (where get_ancestors_of_counterfactual must use G with the edges into X removed, not
+# G) almost never occur.  These streams build them on purpose; they are outside every known-finding class (one world,
+# one value per variable, no self-intervention), so the value oracle judges every answer.
+
+def _chain_template(rng):
+    """X1 -> X2 -> W -> Y, X1 -> Y (X1 reaches the outcome-ancestor W only through X2) under a random relabelling, plus
+    optional extra root / extra edges / a bidirected edge that keeps X out of the districts of the outcomes"""
+    n = rng.choice([4, 4, 5])
+    lab = list(range(n))
+    rng.shuffle(lab)
+    x1, x2, w, y = lab[:4]
+    di = [[x1, x2], [x2, w], [w, y], [x1, y]]
+    bi = []
+    if n == 5:
+        z = lab[4]
+        r = rng.random()
+        if r < 0.4:
+            di.append([z, w])                     # extra root that must be summed out
+        elif r < 0.6:
+            di.append([z, y])
+        elif r < 0.8:
+            di += [[x2, z], [z, y]]               # second mediator
+        else:
+            di += [[w, z], [z, y]]                # outcome chain W -> Z -> Y
+        if rng.random() < 0.3:
+            bi.append([z, rng.choice([w, y])])
+    if rng.random() < 0.25:
+        bi.append([w, y])
+    if rng.random() < 0.15:
+        bi.append([x1, x2])
+    if rng.random() < 0.2:
+        di.append([x2, y])
+    return {"nodes": [], "di": di, "bi": bi}, [x1, x2], [w, y] + ([lab[4]] if n == 5 else [])
+
+
+def _single_world_case(rng):
+    """all event variables carry the same subscripts (2-3 intervened variables, one value each); outcomes are 1-3 distinct
+    other variables, preferably ancestors of one another"""
+    r = rng.random()
+    if r < 0.45:
+        g, xs, rest = _chain_template(rng)
+    else:
+        while True:
+            g = G.rand_graph(rng, 4, 5, acyclic=True, pd=rng.choice([0.5, 0.7]), pb=rng.choice([0.0, 0.0, 0.2]))
+            nodes = G.all_nodes(g)
+            if len(nodes) >= 4 and len(g["bi"]) <= 4:
+                break
+        di = [tuple(e) for e in g["di"]]
+        # prefer intervened pairs joined by a directed path (one reaches the outcomes through the other)
+        pairs = [(a, b) for a in nodes for b in nodes if a != b and a in FE.ancestors(di, {b})]
+        if pairs and rng.random() < 0.8:
+            xs = list(rng.choice(pairs))
+        else:
+            xs = rng.sample(nodes, 2)
+        rest = [v for v in nodes if v not in xs]
+        if len(rest) > 1 and rng.random() < 0.15:
+            xs.append(rest.pop(rng.randrange(len(rest))))
+    nodes = G.all_nodes(g)
+    di = [tuple(e) for e in g["di"]]
+    ivs = [(x, "m" if rng.random() < 0.7 else "p") for x in xs]
+    # outcomes: favour descendants of the intervened variables and chains of outcomes (ancestors of one another)
+    desc = [v for v in rest if set(xs) & FE.ancestors(di, {v})]
+    pool = desc if desc and rng.random() < 0.85 else rest
+    k = min(len(pool), rng.choice([1, 2, 2, 2, 3]))
+    outs = rng.sample(pool, k)
+    doms = _rand_domains(rng, nodes) if rng.random() < 0.5 else _marks_only_domains(rng, nodes)
+    seed = rng.randrange(1 << 30)
+    mk = lambda v: cv(v, "m" if rng.random() < 0.65 else "p", ivs)  # noqa: E731
+    if rng.random() < 0.8 or len(outs) < 2:
+        return _u(g, doms, [mk(v) for v in outs], seed, topo_seed=rng.randrange(1 << 30), stream="single_world")
+    nc = rng.randint(1, len(outs) - 1)
+    return _c(g, doms, [mk(v) for v in outs[nc:]], [mk(v) for v in outs[:nc]], seed, topo_seed=rng.randrange(1 << 30),
+              stream="single_world")
+
+
+def _dropped_bi_case(rng):
+    """a source domain whose graph lacks a bidirected edge of the target (the validators compare a domain graph with the
+    target only when the domain IS the target; Correa et al.'s figure 1 has such a domain).  Only the trichotomy clause is
+    judged on these cases: the oracle's domain models are built from the target graph."""
+    while True:
+        c = _rand_case(rng, 4)
+        if c["kind"] == "uncond" and c["g"]["bi"] and c["domains"]:
+            break
+    k = rng.randrange(len(c["domains"]))
+    e = rng.choice(c["g"]["bi"])
+    c["domains"][k]["drop_bi"] = [sorted(e)]
+    c["domains"][k]["cut"] = []
+    c["stream"] = "dropped_bi"
+    return c
+
+
+def _marks_only_domains(rng, nodes):
+    """two source domains with selection nodes only (no policies): every district is usually transportable from one"""
+    doms = []
+    for k in range(2):
+        tm = [v for v in nodes if rng.random() < 0.3]
+        doms.append({"pop": TARGET + 1 + k, "tmarks": sorted(tm), "policy": [], "cut": []})
+    return doms
+
+
 MALFORMED = ["empty_event", "all_none", "outside", "no_domains", "bad_topo", "policy_outside", "tnode_in_target",
              "cyclic_target", "extra_vertex", "star_none_cond", "target_tag_other_graph", "overlap_cond"]
 
@@ -209,6 +321,11 @@ def cases(rng: random.Random, tier: str):
     seen = {json.dumps(c, sort_keys=True) for c in out}
     out += [c for c in _corpus_dir() if json.dumps(c, sort_keys=True) not in seen]
     n_rand, n_mal = {"quick": (9000, 1000), "escalated": (22000, 2500)}.get(tier, (90000, 8000))
+    n_sw = {"quick": 3000, "escalated": 8000}.get(tier, 30000)
+    for _ in range(n_sw):
+        out.append(_single_world_case(rng))
+    for _ in range(n_sw // 10):
+        out.append(_dropped_bi_case(rng))
     for _ in range(n_rand):
         out.append(_rand_case(rng, 5 if rng.random() < 0.3 else 4))
     for _ in range(n_mal):
@@ -232,8 +349,9 @@ def _y0_var(v):
 def domain_graph_dict(g, d, malformed=None):
     nodes = G.all_nodes(g)
     cut = set(d.get("cut", []))
+    drop = {tuple(sorted(e)) for e in d.get("drop_bi", [])}
     di = [e for e in g["di"] if e[1] not in cut] + [[200 + t, t] for t in d["tmarks"]]
-    bi = [e for e in g["bi"] if e[0] not in cut and e[1] not in cut]
+    bi = [e for e in g["bi"] if e[0] not in cut and e[1] not in cut and tuple(sorted(e)) not in drop]
     if malformed == "extra_vertex":
         nodes = nodes + [95]
     return {"nodes": nodes, "di": di, "bi": bi}
@@ -416,7 +534,7 @@ def _digest(case, enc):
 
 
 def _in_quantifier(case):
-    return "malformed" not in case
+    return "malformed" not in case and not any(d.get("drop_bi") for d in case["domains"])
 
 
 def run_python(case):
@@ -427,7 +545,8 @@ def run_python(case):
     kind = case["kind"]
     g = case["g"]
     nodes = G.all_nodes(g)
-    tags = {"kind": kind, "n_nodes": len(nodes), "n_domains": len(case["domains"]), "malformed": case.get("malformed", "-")}
+    tags = {"kind": kind, "n_nodes": len(nodes), "n_domains": len(case["domains"]), "malformed": case.get("malformed", "-"),
+            "stream": case.get("stream", "random")}
     fail = None
     try:
         target, domains = _build(case)
@@ -520,6 +639,10 @@ def request(case):
     mal = case.get("malformed")
     if mal in ("tnode_in_target", "cyclic_target", "extra_vertex", "target_tag_other_graph", "bad_topo"):
         return None    # these are built on the y0 side only (the model receives the same checks through other cases)
+    if any(d.get("drop_bi") for d in case["domains"]):
+        # whether the run ends in FAIL or in Algorithm 4's ValueError depends on the order in which Python's sets yield
+        # the ctf-factors (the first FAIL ends the loop); only the oracle's trichotomy clause is applied to this stream
+        return None
     g = case["g"]
     gs = C.graph_sexp(G.all_nodes(g), g["di"], g["bi"])
     doms = []
@@ -579,7 +702,29 @@ def canon_model(case, rep):
     return _Out(["ok", _digest(case, enc), E.to_str_tree(enc), "none" if ev == "none" else sorted(E.to_str_tree(ev), key=json.dumps)])
 
 
+def _key_class(case, res):
+    k = finding_key(case, res)
+    return "exact" if k.startswith("{") else k
+
+
 def shrink(case):
+    """candidates that fail in the SAME class as `case` (a failure outside every known-finding class must not drift into
+    a known class while it is shrunk: the runner's predicate is only "still fails")"""
+    r0 = run_python(case)
+    if not r0.get("fail"):
+        yield from _shrink_candidates(case)
+        return
+    cls0 = _key_class(case, r0)
+    for cand in _shrink_candidates(case):
+        try:
+            r = run_python(cand)
+        except Exception:  # noqa: BLE001
+            continue
+        if r.get("fail") and _key_class(cand, r) == cls0:
+            yield cand
+
+
+def _shrink_candidates(case):
     key = "event" if case["kind"] == "uncond" else None
     for gg in G.shrink_graph(case["g"]):
         live = set(G.all_nodes(gg))
@@ -594,6 +739,8 @@ def shrink(case):
         for d in c["domains"]:
             for k in ("tmarks", "policy", "cut"):
                 d[k] = [v for v in d[k] if v in live]
+            if d.get("drop_bi"):
+                d["drop_bi"] = [e for e in d["drop_bi"] if sorted(e) in [sorted(x) for x in gg["bi"]]]
         if all(c.get(k, [1]) for k in ("event", "outcomes", "conditions") if k in c):
             yield c
     if len(case["domains"]) > 1:
@@ -624,59 +771,126 @@ def shrink(case):
     del key
 
 
+def _raw(v):
+    return int(v[1]), frozenset((int(z), s_) for z, s_ in v[4])
+
+
+def _min_var(di, v):
+    """||Y_x||: the subscripts that are ancestors of Y once the edges into the subscripted variables are removed"""
+    name, S = _raw(v)
+    an = FE.ancestors(di, {name}, removed_in={z for z, _ in S})
+    return name, frozenset((z, s_) for z, s_ in S if z in an and z != name)
+
+
+def _ctf_ancestors(di, W, S):
+    """counterfactual ancestors of W_S (Correa et al. 2022, Def. 4.1), as (name, minimal subscripts)"""
+    names = {z for z, _ in S}
+    an = FE.ancestors([e for e in di if e[0] not in names], {W})
+    return {(A, frozenset((z, s_) for z, s_ in S if z != A and z in FE.ancestors(di, {A}, removed_in=names))) for A in an}
+
+
 def signature(case):
-    """syntactic features of the queried event that the known (inherited, not small) defects of SIMPLIFY and of the
-    ctf-factor factorisation depend on (C19's open findings)"""
+    """syntactic features of the query, computed with the harness's own graph code on the MINIMISED query (a subscript that
+    is not an ancestor of its variable is dropped first), that the known (inherited, not small) defects depend on:
+
+      reflexive      a variable intervened on itself (Y_y)                                  [C19 simplify-reflexive]
+      two_values     after minimisation some variable name carries two different values (as event value or subscript)
+      multi_world    after minimisation the same variable occurs in two different worlds     [C19 factorisation multi-world]
+      literal_bound  a (kept) literal subscript z of one event variable is an ancestor, in its own world, of another
+                     event variable that is not subscripted by z and is not z               [C19 factorisation literal-bound];
+                     ctfTR: also a kept literal subscript named like an OUTCOME (the denominator sums over that name)
+      miss_all/some  ctfTR only: the outcome Y_x is looked up in the ancestral components under its raw name, but the
+                     components store ||Y_x|| computed in the graph whose edges out of the conditioned ancestors are cut;
+                     miss = raw name differs from the stored one (for all / for some outcomes)
+      has_none       some variable has no value
+      simplify_risk  a self-intervened variable Y_y and a valueless variable with the same name Y
+      domain_drops_bi  a domain graph lacks a bidirected edge of the target (Algorithm 4's ValueError)
+    """
     g = case["g"]
-    vars_ = (case.get("event") or []) + (case.get("outcomes") or []) + (case.get("conditions") or [])
+    outs = (case.get("event") or []) + (case.get("outcomes") or [])
+    conds = case.get("conditions") or []
+    vars_ = outs + conds
     di = [tuple(e) for e in g["di"]]
     reflexive = any(any(int(z) == int(v[1]) for z, _ in v[4]) for v in vars_)
+    mins = [_min_var(di, v) + (v[2],) for v in vars_]
     vals, worlds = {}, {}
-    for v in vars_:
-        vals.setdefault(int(v[1]), set()).add("m" if v[2] == "n" else v[2])
-        for z, s_ in v[4]:
-            vals.setdefault(int(z), set()).add(s_)
-        worlds.setdefault(int(v[1]), set()).add(tuple(sorted((int(z), s_) for z, s_ in v[4])))
+    for name, S, star in mins:
+        vals.setdefault(name, set()).add("m" if star == "n" else star)
+        for z, s_ in S:
+            vals.setdefault(z, set()).add(s_)
+        worlds.setdefault(name, set()).add(S)
     two_values = any(len(x) > 1 for x in vals.values())
     multi_world = any(len(w) > 1 for w in worlds.values())
     literal_bound = False
-    for a in vars_:
-        for z, _ in a[4]:
-            for b in vars_:
-                if int(z) in {int(q) for q, _ in b[4]} or int(z) == int(b[1]):
+    for _a, Sa, _ in mins:
+        for z, _s in Sa:
+            for b, Sb, _ in mins:
+                if z == b or z in {q for q, _ in Sb}:
                     continue
-                if int(z) in FE.ancestors(di, {int(b[1])}):
+                if z in FE.ancestors(di, {b}, removed_in={q for q, _ in Sb}):
                     literal_bound = True
-    # a subscript that is not an ancestor of its variable is dropped by minimisation; the variable then lives in the
-    # observational world although the query names another one
+    if conds:     # ctfTR's denominator sums over the outcome names: a literal subscript named like an outcome is captured
+        out_names = {int(v[1]) for v in outs}
+        if any(z in out_names for _a, Sa, _ in mins for z, _s in Sa):
+            literal_bound = True
+    miss = []
+    if conds:
+        minc = {_min_var(di, c) for c in conds}
+        for v in outs:
+            W, S = _raw(v)
+            cx = {c[0] for c in minc if c in _ctf_ancestors(di, W, S)}
+            miss.append((W, S) not in _ctf_ancestors([e for e in di if e[0] not in cx], W, S))
+    refl_names = {int(v[1]) for v in vars_ if any(int(z) == int(v[1]) for z, _ in v[4])}
     return {"reflexive": reflexive, "two_values": two_values, "multi_world": multi_world, "literal_bound": literal_bound,
-            "has_none": any(v[2] == "n" for v in vars_)}
+            "has_none": any(v[2] == "n" for v in vars_), "miss_all": bool(miss) and all(miss),
+            "miss_some": any(miss) and not all(miss),
+            # SIMPLIFY's TypeError needs a self-intervened Y_y TOGETHER WITH a valueless variable of the same name
+            # (Lean: CtfTr.SimplifyRisk, `simplify_no_error_outside_risk`)
+            "simplify_risk": any(v[2] == "n" and int(v[1]) in refl_names for v in vars_),
+            "domain_drops_bi": any(d.get("drop_bi") for d in case["domains"])}
+
+
+_CRASH = "after the procedure's own validation accepted"
 
 
 def finding_key(case, res):
-    """explained failure classes get a class key (one open finding per class, see known_findings.jsonl); anything else
-    is keyed by the exact input, so an unexplained failure is always reported"""
+    """explained failure classes get a class key (one open finding per class, see known_findings.jsonl): the key names the
+    KIND OF OUTCOME (wrong value / wrong zero / exception class at a named check) and the syntactic cause, and is given
+    only when both are present; anything else is keyed by the exact input, so an unexplained failure is always reported"""
     fail = (res or {}).get("fail") or ""
     sig = signature(case)
     kind = case["kind"]
+    miss = sig["miss_all"] or sig["miss_some"]
     cls = None
-    if "after the procedure's own validation accepted" in fail:
-        if "_validate_transport_unconditional_counterfactual_query_input" in fail and kind == "cond":
+    if _CRASH in fail:
+        if (kind == "cond" and fail.startswith("ValueError (") and "empty list for the event" in fail
+                and "at _validate_transport_unconditional_counterfactual_query_input:" in fail and sig["miss_all"]):
             cls = "crash:ctfTR-derived-event-rejected"
-        elif "_validate_transport_conditional_counterfactual_query_line_4_output" in fail:
+        elif (kind == "cond" and fail.startswith("KeyError (") and "at least one variable in the event" in fail
+              and "at _validate_transport_conditional_counterfactual_query_line_4_output:" in fail and miss):
             cls = "crash:ctfTR-final-check"
-        elif "_any_variables_with_inconsistent_values" in fail and (sig["reflexive"] or sig["has_none"]):
+        elif (fail.startswith("TypeError (") and "at _any_variables_with_inconsistent_values:" in fail
+              and sig["simplify_risk"]):
             cls = "crash:simplify-typeerror"
-    elif fail.startswith("returned Zero()") and sig["reflexive"]:
-        cls = "zero:reflexive"
+        elif (fail.startswith("ValueError (") and sig["domain_drops_bi"]
+              and ("at transport_district_intervening_on_parents:" in fail
+                   or ("at identify_district_variables:" in fail and "is not in list" in fail))):
+            # the district of the target is not bidirected-connected in the domain graph (whole graph: Algorithm 4's own
+            # check; inside an ancestral set: `.index(True)` of Tian's IDENTIFY)
+            cls = "crash:sigmaTR-district-split"
+    elif fail.startswith("returned Zero()"):
+        if sig["reflexive"]:
+            cls = "zero:reflexive"
+        elif kind == "cond" and sig["multi_world"] and sig["two_values"]:
+            cls = "zero:multi_world"
     elif fail.startswith("value differs"):
         for k in ("reflexive", "two_values", "multi_world", "literal_bound"):
             if sig[k]:
                 cls = "value:" + k
                 break
-    if cls is None and fail.startswith("value differs") and kind == "cond" and \
-            {int(v[1]) for v in case["outcomes"]} & {int(v[1]) for v in case["conditions"]}:
-        cls = "value:outcome-also-condition"
+        if cls is None and kind == "cond" and miss:
+            same = {int(v[1]) for v in case["outcomes"]} & {int(v[1]) for v in case["conditions"]}
+            cls = "value:outcome-also-condition" if same else "value:outcome-lookup-miss"
     if cls is not None:
         return f"{kind}:{cls}" if cls.startswith("value") or cls.startswith("zero") else cls
     c = {k: case[k] for k in ("kind", "event", "outcomes", "conditions", "domains", "malformed") if k in case}
@@ -689,7 +903,7 @@ MANIFEST = {
     "text": ("Partial. Lean theorems about the model Y0.Model.CtfTr of api.py (validators of ctfTRu / ctfTR as decision "
              "functions, Algorithm 4, Algorithm 2 composed from the `ctf` family's models of SIMPLIFY / counterfactual "
              "ancestors / ctf-factors and the `tian` family's model of IDENTIFY; Algorithm 3 with its bookkeeping steps as "
-             "parameters), 20 theorems in Props/C09: the validators reject with the documented classes only and an accepted "
+             "parameters), 31 theorems in Props/C09: the validators reject with the documented classes only and an accepted "
              "input has the stated shape (validateU_error_class, validateC_error_class, validateU_accepts, validateC_strict); "
              "an 'invalid input' outcome is exactly a rejection by the procedure's own validator and an accepted input is "
              "answered, refused, or ends in a non-validation error (ctfTRu_invalid_iff, ctfTRu_trichotomy, "
@@ -697,10 +911,14 @@ MANIFEST = {
              "without a self-intervened variable - the event has probability 0 in every compatible functional SCM "
              "(ctfTRu_zero_only_from_simplify, ctfTRu_zero_of_simplify, ctf_zero_sound_partial via C19); the returned event is "
              "SIMPLIFY's output and every ctf-factor is transported from a domain with no policy variable and no selection "
-             "node on its district (ctfTRu_event_is_simplified, sigmaTR_uses_usable_domain, transportFactors_all). NOT "
-             "proved, and FALSE of the current code on the inputs of the 14 open findings (known_findings.jsonl, class keys "
+             "node on its district (ctfTRu_event_is_simplified, sigmaTR_uses_usable_domain, transportFactors_all); outside the "
+             "known crash classes the unconditional procedure never raises (ctfTRu_no_internal_error_partial with "
+             "simplify_no_error_outside_risk, line2_total, sigmaTRDomain_no_error, transportFactors_no_error), and an "
+             "expression returned by Algorithm 4 denotes Q[district] of the domain's model (sigmaTR_sound, via C17 "
+             "cfactor_sound / tian_sound). NOT "
+             "proved, and FALSE of the current code on the inputs of the 17 open findings (known_findings.jsonl, class keys "
              "with minimal witnesses): the value clause (ctfTRu_sound / ctfTR_sound) and the absence of non-validation errors "
-             "(ctf_no_internal_error). These clauses are decided on every run by the correspondence (validators exact; "
+             "(ctf_no_internal_error in full: Algorithm 3, and the four crash classes). These clauses are decided on every run by the correspondence (validators exact; "
              "Algorithm 2: verdict, simplified event and exact value of the expression) and by the exact functional-SCM "
              "oracle (noise-space enumeration of P*(event), policies as fresh mechanisms): trichotomy, zero-soundness and "
              "value on every answered case."),
@@ -708,8 +926,10 @@ MANIFEST = {
              "the ctf family's Ctf*, the tian family's Tian) tied to api.py by sampling; the oracle's model class (positive "
              "discrete functional SCMs, one latent per bidirected edge, policies as fresh kernels at the policy variables, "
              "cut from their parents or not). Failures on inputs with the syntactic signature of an open finding "
-             "(self-intervened variable, a variable with two values or in two worlds, a literal subscript that is an ancestor "
-             "of another event variable, outcome that is also a condition) are attributed to that finding; any other "
+             "(computed on the minimised query: self-intervened variable, a variable with two values or in two worlds, a literal "
+             "subscript that is an ancestor of another event variable or names an outcome of ctfTR, an outcome of ctfTR that is "
+             "looked up under a non-stored name) together with the finding's kind of outcome (wrong value / wrong zero / the "
+             "exception class at the named check) are attributed to that finding; any other "
              "failing input is reported as a violation with its exact replay."),
     "technique": ("Lean 4 theorems on validator decision functions and on the algorithm skeleton (composition with C19 and C17 "
                   "models) + differential correspondence + exact functional-SCM oracle (trichotomy, zero-soundness, value)"),
